@@ -476,23 +476,32 @@ def write_if_changed(path, text):
             f.write(text)
 
 
+def write(repo, out):
+    """entry point for translate/gen.py:  TARGETS['units'] = data2lean.write ; raises `Refused` (nothing written,
+    a stale file is removed) when the source is outside the expected shape"""
+    os.makedirs(out, exist_ok=True)
+    target = os.path.join(out, 'UnitsData.lean')
+    try:
+        text = emit(load_tables(repo))
+    except (Refused, SyntaxError, OSError, UnicodeError):
+        try:
+            os.remove(target)
+        except OSError:
+            pass
+        raise
+    write_if_changed(target, text)
+
+
 def main():
     ap = argparse.ArgumentParser()
     ap.add_argument('--repo', default=os.environ.get('TAMOC_REPO', '/repo'))
     ap.add_argument('--out', default=os.path.join(HERE, '..', 'lean', 'TamocV', 'Gen'))
     a = ap.parse_args()
-    os.makedirs(a.out, exist_ok=True)
-    target = os.path.join(a.out, 'UnitsData.lean')
     try:
-        text = emit(load_tables(a.repo))
+        write(a.repo, a.out)
     except (Refused, SyntaxError, OSError, UnicodeError) as e:
         sys.stderr.write('GEN-FAIL target=units: %s: %s\n' % (type(e).__name__, e))
-        try:
-            os.remove(target)
-        except OSError:
-            pass
         return 3
-    write_if_changed(target, text)
     return 0
 
 
